@@ -33,6 +33,8 @@ type history struct {
 	// Forward: the client listener has a forward address that is reachable, so every connection is made directly
 	// (the client's direct path has its own copy loop and its own closes)
 	Forward bool `json:"listener_forwards_directly,omitempty"`
+	// Spare: the client's fail-over list has a second, equally reachable entry for the server
+	Spare bool `json:"spare_upstream_in_the_failover_list,omitempty"`
 	// FramePart (ending cut-fin-inside-frame): which partial frame precedes the end of the carrier
 	FramePart int `json:"partial_frame,omitempty"`
 }
@@ -202,7 +204,7 @@ func judgeHistory(h history) (failure string, meas map[string]interface{}, incon
 	vlib.Tap.Reset()
 	before := vlib.Quiesce(5 * time.Second)
 	tgt := vlib.NewTarget("data", makeHandler(h))
-	cfg := vlib.PairConfig{Carrier: h.Carrier, ClientInsecure: true, ViaRelay: viaRelay,
+	cfg := vlib.PairConfig{Carrier: h.Carrier, ClientInsecure: true, ViaRelay: viaRelay, SpareUpstream: h.Spare,
 		Channels:  []vlib.ChannelSpec{{Name: "data", Target: tgt.URL()}},
 		Listeners: []vlib.ListenerSpec{{Channel: "data"}}}
 	if h.Forward {
@@ -243,6 +245,8 @@ func judgeHistory(h history) (failure string, meas map[string]interface{}, incon
 	// A socket that is merely forgotten is closed by its finaliser at some later garbage collection; that is not
 	// "reclaimed when the connection ends". The collector is therefore switched off while connections are counted.
 	defer debug.SetGCPercent(debug.SetGCPercent(-1))
+	// both ends are up, no physical session exists yet
+	fresh := vlib.Quiesce(3 * time.Second)
 	// warm-up: establishes the physical session and any lazily started workers
 	if msg := runConns(p, tgt, h, 3); msg != "" {
 		fail("warm-up connection failed: "+msg, nil)
@@ -380,6 +384,20 @@ func judgeHistory(h history) (failure string, meas map[string]interface{}, incon
 		if after.Goroutines > limit.Goroutines || after.FDs > limit.FDs {
 			fail(fmt.Sprintf("after the session ended (%s) the footprint %v stays above the idle footprint %v", h.Ending, after, idle), meas)
 		}
+		if h.Ending != "server-shutdown" && h.Ending != "outage-and-recovery" {
+			// the physical session is gone and nothing has asked for a new one: what the session itself held (its
+			// carrier, its multiplexer workers, on both sides) is released too, so the footprint is back to that of the
+			// two ends before their first session
+			limit := vlib.Footprint{Goroutines: fresh.Goroutines + slack, FDs: fresh.FDs + slack}
+			after = vlib.QuiesceBelow(limit, 4*time.Second)
+			meas["before_first_session"] = fresh.String()
+			meas["after_ending_settled"] = after.String()
+			if after.Goroutines > limit.Goroutines || after.FDs > limit.FDs {
+				meas["descriptors_after_ending"] = vlib.FDSummary()
+				meas["goroutines_after_ending"] = vlib.GoroutineSummary(12)
+				fail(fmt.Sprintf("after the session ended (%s) and with no new one asked for, the footprint %v stays above the footprint %v the two ends had before their first session", h.Ending, after, fresh), meas)
+			}
+		}
 	}
 	cleanup()
 	end := vlib.QuiesceBelow(vlib.Footprint{Goroutines: before.Goroutines + slack, FDs: before.FDs + slack}, 8*time.Second)
@@ -414,6 +432,7 @@ func TestReclaim(t *testing.T) {
 		if h.Ending == "cut-fin-inside-frame" {
 			h.FramePart = rapid.IntRange(0, 3).Draw(rt, "framePart")
 		}
+		h.Spare = h.Carrier != vlib.CarStdio && rapid.IntRange(0, 2).Draw(rt, "spare") == 0
 		if h.Forward {
 			// no physical session is involved: nothing to refuse, nothing to end
 			h.Refused = ""
@@ -442,7 +461,7 @@ func TestReclaim(t *testing.T) {
 			rt.Fatalf("%s", failure)
 		}
 		nontrivial := h.Closer != "app" || h.Ending != "none" || h.Refused != ""
-		labels := []string{"refused:" + h.Refused, fmt.Sprintf("forward:%v", h.Forward), "carrier:" + h.Carrier, "closer:" + h.Closer, "ending:" + h.Ending, fmt.Sprintf("overlap:%d", h.Overlap), fmt.Sprintf("open-at-end:%d", h.OpenAtEnd)}
+		labels := []string{"refused:" + h.Refused, fmt.Sprintf("forward:%v", h.Forward), fmt.Sprintf("spare-upstream:%v", h.Spare), "carrier:" + h.Carrier, "closer:" + h.Closer, "ending:" + h.Ending, fmt.Sprintf("overlap:%d", h.Overlap), fmt.Sprintf("open-at-end:%d", h.OpenAtEnd)}
 		if h.StartTLS {
 			labels = append(labels, "starttls")
 		}
